@@ -125,25 +125,26 @@ void vx_step(void *obj, int kind, unsigned long oldv, unsigned long newv) {
 /* ---------------------------------------------------------------- loop hooks (DESIGN 2.4) */
 /* start_read.0:  while ((v & 1) == 1) { wait(); v = version.load(); }
    invariant: v is the value seen by this thread's latest step, whose pre-state satisfied INV */
-static _Bool I_sr(int v) {
-    return INV(S.s) && INV_self() && window_ok() && S.nsteps >= 1 && S.nsteps <= 3 && S.net == 0 && v == S.at.ver && INV(S.at) &&
+static _Bool I_sr(const int *vp) {
+    return INV(S.s) && INV_self() && window_ok() && S.nsteps <= 3 && S.net == 0 && (vp == 0 || (S.nsteps >= 1 && *vp == S.at.ver)) && (S.nsteps == 0 || INV(S.at)) &&
            (!S.have_lease || S.at.commits >= S.c0);
 }
 void vx_enter_start_read_0(void) { S.first_sr = 1; }
 _Bool vx_head_start_read_0(int *v, int *wait_i) {
 #ifndef VX_NOHOOK
     if (S.first_sr) {
-        __CPROVER_assert(I_sr(*v), "loop start_read.0 invariant base");
+        __CPROVER_assert(I_sr(v), "loop start_read.0 invariant base");
         _Bool q = S.env_quiet, hl = S.have_lease; unsigned long c0 = S.c0; int w = S.s.writer == SELF, av = S.acq_ver;
         struct state s0 = S.s;
         struct ghost h; S = h;                                /* havoc everything the loop may change ... */
-        *v = nondet_int(); *wait_i = nondet_int();
+        if (v) *v = nondet_int();
+        *wait_i = nondet_int();
         S.env_quiet = q; S.have_lease = hl; S.c0 = c0; S.acq_ver = av; /* ... except what no step changes */
         __CPROVER_assume(rely(SELF, s0, S.s));                 /* shared state: R* from loop entry (own steps are loads) */
-        __CPROVER_assume(I_sr(*v));
+        __CPROVER_assume(I_sr(v));
         S.first_sr = 0;
     } else {
-        __CPROVER_assert(I_sr(*v), "loop start_read.0 invariant step");
+        __CPROVER_assert(I_sr(v), "loop start_read.0 invariant step");
         __CPROVER_assume(0);
     }
 #else
@@ -154,23 +155,24 @@ _Bool vx_head_start_read_0(int *v, int *wait_i) {
 
 /* start_write.0: while ((v & 1) == 1) { wait(); v = version.fetch_or(1); }
    invariant: v is the pre-value of this thread's latest step; if it was even this thread is now the writer */
-static _Bool I_sw(int v) {
-    return INV(S.s) && INV_self() && window_ok() && S.nsteps >= 1 && S.nsteps <= 3 && v == S.at.ver && INV(S.at) &&
-           (((v & 1) == 0) == (S.s.writer == SELF)) && ((v & 1) == 0 ? S.at.writer == 0 : 1);
+static _Bool I_sw(const int *vp) {
+    return INV(S.s) && INV_self() && window_ok() && S.nsteps <= 3 && (S.nsteps == 0 || INV(S.at)) &&
+           (vp == 0 || (S.nsteps >= 1 && *vp == S.at.ver && (((*vp & 1) == 0) == (S.s.writer == SELF)) && ((*vp & 1) == 0 ? S.at.writer == 0 : 1)));
 }
 void vx_enter_start_write_0(void) { S.first_sw = 1; }
 _Bool vx_head_start_write_0(int *v, int *wait_i) {
 #ifndef VX_NOHOOK
     if (S.first_sw) {
-        __CPROVER_assert(I_sw(*v), "loop start_write.0 invariant base");
+        __CPROVER_assert(I_sw(v), "loop start_write.0 invariant base");
         _Bool q = S.env_quiet;
         struct ghost h; S = h;
-        *v = nondet_int(); *wait_i = nondet_int();
+        if (v) *v = nondet_int();
+        *wait_i = nondet_int();
         S.env_quiet = q; S.have_lease = 0;
-        __CPROVER_assume(I_sw(*v));
+        __CPROVER_assume(I_sw(v));
         S.first_sw = 0;
     } else {
-        __CPROVER_assert(I_sw(*v), "loop start_write.0 invariant step");
+        __CPROVER_assert(I_sw(v), "loop start_write.0 invariant step");
         __CPROVER_assume(0);
     }
 #else
@@ -197,14 +199,14 @@ __CPROVER_assigns(S);
    committed since the lease was issued (aborted phases excepted, clause 3); and it does succeed in that case */
 _Bool h_validate(void *l, int lease_version)
 __CPROVER_requires(PRE_COMMON && LEASE_OK(lease_version))
-__CPROVER_ensures(S.nsteps == 1 && S.net == 0)
+__CPROVER_ensures(S.nsteps >= 1 && S.net == 0)
 __CPROVER_ensures(__CPROVER_return_value == (S.at.writer == 0 && S.at.commits == S.c0))
 __CPROVER_ensures(INV(S.s) && INV_self())
 __CPROVER_assigns(S);
 
 _Bool h_end_read(void *l, int lease_version)
 __CPROVER_requires(PRE_COMMON && LEASE_OK(lease_version))
-__CPROVER_ensures(S.nsteps == 1 && S.net == 0)
+__CPROVER_ensures(S.nsteps >= 1 && S.net == 0)
 __CPROVER_ensures(__CPROVER_return_value == (S.at.writer == 0 && S.at.commits == S.c0))
 __CPROVER_ensures(INV(S.s) && INV_self())
 __CPROVER_assigns(S);
@@ -255,7 +257,7 @@ __CPROVER_assigns(S);
 
 _Bool h_is_write_locked(void *l)
 __CPROVER_requires(PRE_COMMON)
-__CPROVER_ensures(S.nsteps == 1 && S.net == 0)
+__CPROVER_ensures(S.nsteps >= 1 && S.net == 0)
 __CPROVER_ensures(__CPROVER_return_value == (S.at.writer != 0))
 __CPROVER_ensures(__CPROVER_return_value == ((S.at.ver & 1) == 1))
 __CPROVER_assigns(S);
